@@ -607,6 +607,13 @@ def ord3_registry():
         ip.ghost['cd_kwargs'] = kw
         return Obj('DynRec', {})
     R.models['system_dynamics.compute_dynamics'] = m_cd
+
+    # the REAL Control.add_single runs here: converting / copying the superoperator keeps its value (who owns the buffer is C20's business)
+    @model
+    def m_same_value(ip, args, kw):
+        return args[0]
+    for nm in ('array', 'asarray', 'copy', 'ascontiguousarray'):
+        R.lib_models['numpy.' + nm] = m_same_value
     return R
 
 
